@@ -138,12 +138,12 @@ CHECKS = {
         ref="5/C06",
     ),
     "C08": dict(
-        text="Theorems (Lean 4): any two results of one batch commute under the processResults merges (reward jobs write different rows, task jobs report "
-             "disjoint sensors; record lists compared as multisets), merges respect state equivalence, hence by induction over List.Perm the post-step engine "
+        text="Theorems (Lean 4): any two results of one batch commute under the processResults merges (reward jobs write different rows; task jobs belong to "
+             "different targets and MAY report the same sensor - the merge keeps the report of the highest target id; record lists compared as multisets), merges respect state equivalence, hence by induction over List.Perm the post-step engine "
              "state is the same for EVERY permutation of EVERY batch; the step's observation/miss lists contain exactly the records the jobs returned, each "
-             "once (the lists are reset per step); every tasked sensor ends the step with the pointing state its job reported. Witness theorems record the "
-             "unrepaired quadratic miss list and the per-job reset of sensor_changes. Tied to the code by real scenarios on real Ray (1-4 radars x 1-5 targets, "
-             "three policies, displaced truths, slow sensors, narrow fields of view) in which the harness chooses the order JobExecutor.join processes finished "
+             "once (the lists are reset per step); every tasked sensor ends the step with the pointing state reported by the highest-target job that tasked it. Witness theorems record the "
+             "unrepaired quadratic miss list, the per-job reset of sensor_changes and the last-write-wins merge. Tied to the code by real scenarios on real Ray (1-4 radars x 1-5 targets, "
+             "all four policies, displaced truths, slow sensors, narrow fields of view, jobs that return a hit and a miss together) in which the harness chooses the order JobExecutor.join processes finished "
              "jobs (FIFO, LIFO, seeded random): visibility/reward/decision matrices, observations, misses, pointing state, estimates, truths and stored rows are "
              "compared bit for bit across orders, and the processed job sequence of every step is replayed through the model.",
         note=BASE_TB + "Ray copies objects to workers and ray.wait is complete (only the processing order is chosen); the guarded hook seeds a task job's measurement "
@@ -167,10 +167,10 @@ CHECKS = {
         text="Theorems (Lean 4) over a model of what a run writes (clock epochs, initial save, stepForward recording the stepped epoch, the output test on the clock "
              "time, saveDatabaseOutput inserting missing epochs before one bulk save): the referential-consistency invariant (unique epochs; every truth, estimate "
              "and transient row refers to a stored epoch; rows waiting to be saved wait together with their epoch) holds initially and is preserved by every step, "
-             "for any step/output/span incl. runs past the configured stop; truth rows are exactly the initial state plus one row per agent per output epoch; one call "
+             "for any step/output/span incl. runs past the configured stop; truth and estimate rows are exactly the initial state plus one row per agent held (target tracked) at each output epoch, also when agents join or leave at run time; one call "
              "or several consecutive calls give the same database; a witness theorem records the unrepaired dangling rows. Tied to the code by real scenarios on real "
              "Ray whose SQLite file is audited with SQL (uniqueness, anti-joins for every epoch and agent reference in seven tables, per-epoch counts, timestamp vs "
-             "Julian date, read-back equality with the live objects) and compared with the model's predicted tables; atomicity by fault injection.",
+             "Julian date, read-back equality with the live objects) and compared with the model's predicted tables; atomicity by fault injection in bulk saves of 4, 700 and 1500 rows; scenarios include a target joining and a target leaving at run time.",
         note=BASE_TB + "SQLAlchemy/SQLite transaction semantics are exercised (a failing row in a bulk save), not proved; states are abstracted to row identities in the model.",
         technique="Lean 4 proof (invariant by induction over steps) + SQL audit of real output databases compared with the model",
         ref="5/C09",
